@@ -59,7 +59,13 @@ impl<I: ConnectSyscall> ConnectSyscall for NioConnectSyscall<I> {
                 break;
             }
             let errno = Error::last_os_error().raw_os_error();
-            if errno == Some(libc::EINPROGRESS) || errno == Some(libc::EALREADY) || errno == Some(libc::EWOULDBLOCK) {
+            // an interrupted connect goes on asynchronously, like EINPROGRESS (a second connect
+            // would only report EALREADY): wait for the outcome instead of looping on the old answer
+            if errno == Some(libc::EINPROGRESS)
+                || errno == Some(libc::EALREADY)
+                || errno == Some(libc::EWOULDBLOCK)
+                || errno == Some(libc::EINTR)
+            {
                 //阻塞，直到写事件发生
                 left_time = start_time
                     .saturating_add(send_time_limit(fd))
@@ -100,7 +106,7 @@ impl<I: ConnectSyscall> ConnectSyscall for NioConnectSyscall<I> {
                     set_errno(libc::EINPROGRESS);
                     r = -1;
                 }
-            } else if errno != Some(libc::EINTR) {
+            } else {
                 break;
             }
         }
